@@ -5067,7 +5067,9 @@ yyreduce:
 
           if (!IS_UNDEFINED(i1) && !IS_UNDEFINED(i2) &&
               (
-                i2 != 0 && llabs(i1) > INT64_MAX / llabs(i2)
+                i1 != 0 && i2 != 0 &&
+                (i1 == INT64_MIN || i2 == INT64_MIN ||
+                 llabs(i1) > INT64_MAX / llabs(i2))
               ))
           {
             yr_compiler_set_error_extra_info_fmt(
